@@ -88,7 +88,7 @@ func runConcCase(c Case, st *Stats, prop string) error {
 		if strings.HasPrefix(res.Deadlock, "TIMEOUT-NOT-A-LOCK-WAIT") {
 			panic("INCONCLUSIVE: concurrent workload timed out without a lock wait\n" + res.Deadlock[:minInt(len(res.Deadlock), 4000)])
 		}
-		return fatalViolation{fmt.Sprintf("deadlock: the workload did not finish within 60 s, goroutines are parked on the database lock:\n%s", res.Deadlock[:minInt(len(res.Deadlock), 3000)])}
+		return fatalViolation{fmt.Sprintf("deadlock: the workload did not finish within 60 s, goroutines are parked on the database lock:\n%s", res.Deadlock[:minInt(len(res.Deadlock), 20000)])}
 	}
 	if res.Panic != "" {
 		return fmt.Errorf("a transaction panicked: %s", res.Panic)
